@@ -20,6 +20,39 @@ type EmbNE struct {
 	Other string
 }
 
+// types for embedded fields and for field types that are instantiations / aliases (embedded.go)
+
+type EmbP struct {
+	Pid  int
+	Ptag string
+}
+
+type EmbZ struct{}
+
+type EmbQ struct{ Qid int }
+
+type AliasP = EmbQ
+
+type Level int
+
+type AliasLevel = Level
+
+type Tags []string
+
+type Attr map[string]int
+
+type Handler func(int) string
+
+type Cell[T any] struct{ Val T }
+
+type Bag[T any] []T
+
+type Void[T any] struct{}
+
+type level int
+
+type inner struct{ X int }
+
 type MyStr string
 
 type MyInt int
